@@ -45,6 +45,25 @@ theorem fact_call_structure :
     Facts.C08.checkPageTreeCalls = ["f.state.xorTree.getZeroTo", "f.state.xorTree.getZeroTo", "f.state.xorTree.tree.Replace", "f.state.xorTree.writeWithoutLock"] := by
   decide
 
+/-- wiring: `Network.Configure` loads the state (`state.Configure` → `loadState`), `Network.Start` starts it
+    (`state.Start` → `xorTreeRepair.start` → `checkPage` on every tick); the signals reach the circuit; both trees are set
+    up on their own shelves with the same page size; `Diagnostics` reports the root of the XOR tree, the atomic highest
+    clock and (through `statistics`) the stored transaction count -/
+theorem fact_wiring :
+    "n.state.Configure" ∈ Facts.C08.networkConfigureStateCalls ∧ "n.state.Start" ∈ Facts.C08.networkStartStateCalls ∧
+    Facts.C08.stateConfigureCalls = ["s.loadState"] ∧ Facts.C08.stateStartRepairCalls = ["s.xorTreeRepair.start"] ∧
+    "f.checkPage" ∈ Facts.C08.repairLoopCalls ∧
+    Facts.C08.signalCalls = ["s.xorTreeRepair.incrementCount", "s.xorTreeRepair.stateOK"] ∧
+    Facts.C08.newStateTreeStores = ["newTreeStore(xorShelf, tree.New(tree.NewXor(), PageSize))",
+      "newTreeStore(ibltShelf, tree.New(tree.NewIblt(IbltNumBuckets), PageSize))"] := by decide
+theorem fact_check_page_conditions :
+    Facts.C08.condsCheckPage = ["f.circuitState < circuitRed", "err != nil", "lcStart != 0", "!xorTillEnd.Empty()",
+      "err != nil", "err != nil", "err != nil", "lcEnd > currentLC"] := by decide
+theorem fact_diagnostics :
+    "core.GenericDiagnosticResult{Title: \"dag_xor\", Outcome: s.xorTree.getRoot().(*tree.Xor).Hash()}" ∈ Facts.C08.diagnosticsEntries ∧
+    "core.GenericDiagnosticResult{Title: \"dag_lc_high\", Outcome: s.lamportClockHigh.Load()}" ∈ Facts.C08.diagnosticsEntries ∧
+    Facts.C08.statisticsCountSource = ["uint(d.getNumberOfTransactions(tx))"] := by decide
+
 /-! ### the two Data implementations are commutative groups -/
 
 theorem xor_data_lawful : Lawful xorOps := xor_lawful
@@ -278,10 +297,17 @@ theorem rollback_restores {s : State NB} (r : Reachable s) (tx : Tx) (opt : AddO
           by_cases hpay : (opt.payload == some false) = true
           · simp [hpay]
           · simp only [hpay, Bool.false_eq_true, if_false]
-            cases s.disk.graphAdd tx with
-            | err e => simp
-            | panic e => simp
-            | ok d => simp [hf]
+            by_cases hsp : (opt.payload.isSome && opt.savePayloadEventFails) = true
+            · simp [hsp]
+            · simp only [hsp, Bool.false_eq_true, if_false]
+              cases s.disk.graphAdd tx with
+              | err e => simp
+              | panic e => simp
+              | ok d =>
+                simp only []
+                by_cases hst : opt.saveTxEventFails = true
+                · simp [hst]
+                · simp [hst, hf]
     · exact a.2.1 hok
   have o := observables_of_sinv a.1
   rw [hd] at o
@@ -309,6 +335,32 @@ example : (add cfg (State.init cfg : State NB) exRoot { commitFails := true }).2
 example : (add cfg (add cfg (State.init cfg : State NB) exRoot {}).1 exChild {}).2 = .ok () := by decide
 example : Reachable (restart cfg (add cfg (add cfg (State.init cfg) exRoot {}).1 exChild { commitFails := true }).1) :=
   .restart (.add _ _ (.add _ _ .init))
+
+/-- **`Diagnostics()`** reports what the stored set implies: `dag_xor` is the digest of all stored refs, `dag_lc_high`
+    the highest clock, `transaction_count` the number of stored transactions. -/
+theorem diagnostics_spec {s : State NB} (r : Reachable s) :
+    diagnostics s = (specAll xorOps (refClocks s.disk.txs), maxClock s.disk.txs, s.disk.txs.length) := by
+  have h := reachable_inv r
+  have hi := h.x.inv xor_lawful cfg_good.pos
+  unfold diagnostics
+  rw [Tree.root_data xor_lawful _ hi.1, hi.2.1, hi.2.2, List.filter_eq_self.mpr (fun _ _ => rfl), h.lc, h.g.lc, h.g.count]
+
+/-- a failing notifier `Save` (payload event before `graph.add`, transaction event after it) is one more rolled-back
+    write: error reported, disk untouched, observables unchanged -/
+theorem save_failure_is_rolled_back {s : State NB} (r : Reachable s) (tx : Tx) (opt : AddOpts)
+    (hp : s.disk.isPresent tx.ref = false) (hv : s.disk.verifyPrevs tx = .ok ()) (hpay : opt.payload = some true)
+    (hs : opt.savePayloadEventFails = true) :
+    (add cfg s tx opt).2 = .err "save-failed" ∧ (add cfg s tx opt).1.disk = s.disk ∧
+    Observables (add cfg s tx opt).1 s.disk.txs := by
+  have herr : (add cfg s tx opt).2 = .err "save-failed" := by
+    unfold Nuts.C08.add
+    simp [hp, hv, hpay, hs]
+  have := add_rejected_noop r tx opt (by rw [herr]; intro e; cases e)
+  exact ⟨herr, this.1, this.2⟩
+
+example : (add cfg (State.init cfg : State NB) exRoot { saveTxEventFails := true }).2 = .err "save-failed" := by decide
+example : (add cfg (State.init cfg : State NB) exRoot { payload := some true, savePayloadEventFails := true }).2 =
+    .err "save-failed" := by decide
 
 /-! ### repair -/
 
